@@ -17,6 +17,11 @@ def rule_C02(env):
     samples = []
     classes_seen = {op: set() for op in PUTS + GETS}
     loc_e = PV.op_loc(env, "::emit_and_process")
+    for op in PUTS + GETS:
+        lvs = tr.get(op)
+        if lvs is not None and not isinstance(lvs, Exception):
+            for lf in lvs:
+                classes_seen[op].add(lf.memo_n0)
     for op, lf in PV.iter_emit_leaves(env, res, tr):
         sp = spec.spec(op)
         if sp["memo"] is None:
@@ -28,7 +33,6 @@ def rule_C02(env):
         n += 1
         if lf.end is not None:
             continue
-        classes_seen[op].add(lf.memo_n0)
         if op in PUTS:
             res.count("R02.a")
             nobl += 3
